@@ -160,6 +160,7 @@ class Repo(object):
         self.renamed = {}
         self.adopted = {}
         self.inlined = {}
+        self.ref_trees = {}
         self._alpha_normalise()
 
     def _alpha_normalise(self):
@@ -169,6 +170,7 @@ class Repo(object):
         from . import alpha, equiv
         refdir = os.path.join(VERIF, "reference", PKG)
         ref = alpha.load_reference(refdir)
+        self.ref_trees = ref
         hier_cur = equiv.class_hierarchy([m.tree for m in self.modules.values()])
         hier_ref = equiv.class_hierarchy(list(ref.values()))
         from . import inline
@@ -221,6 +223,16 @@ class Repo(object):
         node._qual = qual
         node._module = mod
         return node
+
+    def ref_assign(self, modname, target):
+        """value node of the last module-level assignment to ``target`` in the confirmed snapshot, or None"""
+        t = self.ref_trees.get(modname)
+        res = None
+        if t is not None:
+            for st in t.body:
+                if isinstance(st, ast.Assign) and any(ast.unparse(x) == target for x in st.targets):
+                    res = st.value
+        return res
 
     def find_assign(self, modname, target, scope=None, required=True):
         """Last module-level (or class-level when scope given) assignment whose
